@@ -1323,7 +1323,21 @@ func FromV3Response(ref *openapi3.ResponseRef, components *openapi3.Components) 
 		Extensions:  stripNonExtensions(response.Extensions),
 	}
 	if content := response.Content; content != nil {
-		if ct := content["application/json"]; ct != nil {
+		ct := content["application/json"]
+		if ct == nil {
+			// No JSON content: the first media type, in name order, provides the schema
+			names := make([]string, 0, len(content))
+			for name := range content {
+				names = append(names, name)
+			}
+			sort.Strings(names)
+			for _, name := range names {
+				if ct = content[name]; ct != nil && ct.Schema != nil {
+					break
+				}
+			}
+		}
+		if ct != nil && ct.Schema != nil {
 			result.Schema, _ = FromV3SchemaRef(ct.Schema, components)
 		}
 	}
